@@ -320,8 +320,10 @@ impl ReservedHeapSection {
         let mut ret = None;
 
         loop {
-            // Eat the first null chars
-            while let Some('\u{0}') = src.chars().next() {
+            // Eat the first null chars. The test is on the byte: the copier hands over slices that
+            // start at a cell boundary, which may lie inside a multi-byte character, and decoding
+            // such a slice can yield a spurious NUL (a zero byte is always the NUL character).
+            while src.as_bytes().first() == Some(&0u8) {
                 match ret {
                     Some(_) => {
                         debug_assert_ne!(anchor, self.cell_len());
